@@ -165,3 +165,6 @@ pub fn spawn_rc_system_command_from(world: &mut World, callback: SystemCommandCa
 }
 
 //-------------------------------------------------------------------------------------------------------------------
+
+#[cfg(bevy_cobweb_verif)]
+impl SystemCommandStorage { pub(crate) fn verif_is_taken(&self) -> bool { self.callback.is_none() } }
